@@ -1122,31 +1122,70 @@ def gen_c14_program(seed, start, count):
 
 def gen_c14_error_case(seed, idx):
     """When derivation fails, the item - with all its foreign content - is still emitted next to the compile error: the only
-    errors rustc reports are derive_ex's own (no unresolved type, no std derive tripping over a missing helper attribute)."""
+    errors rustc reports are derive_ex's own (no unresolved type, no leftover helper attribute, no std derive tripping over a
+    missing one).  The refusal stands next to other content: helper attributes of the *valid* traits of the same request, a
+    second `#[derive_ex(..)]` list, foreign derives.  Where only one trait is refused, its siblings are used by the program."""
     rng = random.Random(seed * 3000029 + idx)
-    kind = rng.choice(['unknown_trait', 'enum_unsupported', 'misuse', 'dup_helper', 'bad_arg', 'not_item'])
+    kind = ['unknown_trait', 'enum_unsupported', 'misuse', 'dup_helper', 'bad_arg', 'not_item', 'misplaced', 'two_transparent',
+            'deref_arity', 'several_default', 'empty_enum_default', 'bad_field_list'][idx % 12]
     uses = 'pub fn use_it(x: &X) -> String { format!("{:?}", x) }\n'
+    dbg = rng.choice(['#[debug(ignore)] ', ''])
+    dfl = rng.choice(['#[default(3)] ', ''])
+    second = rng.choice(['#[derive_ex(Default)] ', ''])
+    entry = rng.choice(['attr', 'derive'])
+
+    def head(tr):
+        return f'#[derive_ex({tr})]' if entry == 'attr' else f'#[derive(Ex)] #[derive_ex({tr})]'
     if kind == 'unknown_trait':
-        item = '#[derive_ex(Clone, Foo)] #[derive(Debug)] pub struct X { pub a: u8 }'
+        # (a list that does not parse derives nothing: helper attributes would rightly stay on the item, so there are none)
+        item = f'{head("Clone, Foo, Debug")} #[derive(Default)] pub struct X {{ pub a: u8 }}'
+        uses = ''
         msgs = ['Foo', 'unsupported', 'unknown', 'not supported']
     elif kind == 'enum_unsupported':
-        t = rng.choice(['Deref', 'Add', 'Neg', 'AddAssign'])
-        item = f'#[derive_ex(Clone, {t})] #[derive(Debug, Default)] pub enum X {{ A, #[default] B(u8) }}'
+        t = rng.choice(['Deref', 'Add', 'Neg', 'AddAssign', 'DerefMut', 'Not'])
+        item = f'{head("Debug, " + t + ", Default")} pub enum X {{ A, #[default] B({dbg}u8) }}'
+        uses = ''
         msgs = ['not support', 'enum', 'struct']
     elif kind == 'misuse':
-        item = '#[derive_ex(PartialEq, Eq, PartialOrd, Ord)] #[derive(Debug)] pub struct X { #[partial_ord(key = $.len())] pub a: String }'
+        item = f'{head("PartialEq, Eq, PartialOrd, Ord, Default")} #[derive(Debug)] pub struct X {{ #[partial_ord(key = $.len())] pub a: String, {dfl}pub b: u8 }}'
+        uses += 'pub fn sib() -> bool { X::default() == X::default() }\n'
         msgs = ['default implementation of', 'was specified']
     elif kind == 'dup_helper':
-        item = '#[derive_ex(PartialEq)] #[derive(Debug)] pub struct X { #[partial_eq(ignore)] #[partial_eq(ignore)] pub a: u8 }'
+        item = f'{head("PartialEq, Default")} #[derive(Debug)] pub struct X {{ #[partial_eq(ignore)] #[partial_eq(ignore)] pub a: u8, {dfl}pub b: u8 }}'
         msgs = ['specified twice']
     elif kind == 'bad_arg':
-        item = '#[derive_ex(Clone(frobnicate))] #[derive(Debug, Default)] pub enum X { #[default] A, B }'
-        msgs = ['frobnicate', 'unexpected', 'expected', 'cannot find']
+        item = f'{head("Clone(frobnicate), PartialEq")} #[derive(Debug, Default)] pub enum X {{ #[default] A, B }}'
+        msgs = ['frobnicate', 'unexpected', 'expected', 'cannot find parameter']
+    elif kind == 'misplaced':
+        arg = rng.choice(['reverse', 'ignore', 'key = $.0', 'by = f'])
+        item = f'{head("PartialOrd, PartialEq, Debug")} {second if entry == "attr" else ""}pub enum X {{ A, #[partial_ord({arg})] B({dbg}u8) }}'
+        uses = ''
+        msgs = ['cannot specify']
+    elif kind == 'two_transparent':
+        item = f'{head("Clone, Debug, Default")} pub struct X {{ #[debug(transparent)] pub a: u8, {dfl}#[debug(transparent)] pub b: u8 }}'
+        uses = 'pub fn sib(x: &X) -> X { let _ = X::default(); x.clone() }\n'
+        msgs = ['transparent']
+    elif kind == 'deref_arity':
+        item = f'{head("Clone, Deref, Default")} #[derive(Debug)] pub struct X({dfl}pub u8, pub u16);'
+        uses += 'pub fn sib(x: &X) -> X { let _ = X::default(); x.clone() }\n'
+        msgs = ['single field']
+    elif kind == 'several_default':
+        item = f'{head("Clone, Default, Debug")} pub enum X {{ #[default] A, #[default] B({dbg}u8), C }}'
+        uses += 'pub fn sib(x: &X) -> X { x.clone() }\n'
+        msgs = ['multiple variants', 'default']
+    elif kind == 'empty_enum_default':
+        item = f'{head("Clone, Default")} #[derive(Debug)] pub enum X {{}}'
+        uses += 'pub fn sib(x: &X) -> X { x.clone() }\n'
+        msgs = ['does not exist', 'default']
+    elif kind == 'bad_field_list':
+        item = f'{head("Clone, Debug")} pub struct X {{ #[derive_ex(Foo)] {dbg}pub a: u8 }}'
+        uses = ''
+        msgs = ['Foo', 'unsupported', 'unknown', 'not supported']
     else:
         item = '#[derive_ex(Clone)] pub fn f() {}\n#[derive(Debug)] pub struct X;'
         msgs = ['can be specified only for']
     src = '#![allow(dead_code, unused_imports)]\nuse derive_ex::{derive_ex, Ex};\n' + item + '\n' + uses
-    return dict(id=f'c14e/{seed}/{idx}', src=src, item=item, desc=dict(kind=kind), expect_only_error=msgs)
+    return dict(id=f'c14e/{seed}/{idx}', src=src, item=item, desc=dict(kind=kind, entry=entry), expect_only_error=msgs)
 
 
 # ---------------------------------------------------------------- C17: Eq only if every compared component is Eq
